@@ -240,6 +240,8 @@ def norm(o):
 
 def probe_outcome(env, source, data_spec, what):
     def f():
+        if what == "env_render":      # the convenience entry point: parse and render in one call
+            return env.render(source, **build_data(data_spec, None))
         t = env.from_string(source)
         if what == "parse":
             return "parsed:" + str(t)
@@ -469,6 +471,8 @@ class C11:
             if k in ("parse", "render"):
                 op["tree"] = rng.randrange(len(trees))
                 op["data"] = rng.randrange(len(datas))
+                if k == "render" and rng.chance(0.3):
+                    op["via_env"] = True
             elif k == "mutate":
                 op["m"] = rng.choice([["add_filter", "mark2"], ["add_tag"], ["mode", rng.choice(["strict", "lax", "warn"])],
                                       ["override_filter"], ["add_filter", "mark"],
@@ -848,11 +852,12 @@ class C11:
                 src = G.render_source(tr, with_lc(d, sc["specs"][i]["recipe"]))
                 csrc = G.render_source(tr, G.DEFAULT_DELIMS)
                 dspec = sc["datas"][op["data"]]
-                got = probe_outcome(env, src, dspec, k)
+                what = "env_render" if op.get("via_env") else k
+                got = probe_outcome(env, src, dspec, what)
                 spec = cur_spec(i)
-                key = digest(("p", spec, d, src, dspec, k))
+                key = digest(("p", spec, d, src, dspec, what))
                 probe = {"kind": "probe", "spec": spec, "delims": d, "source": src,
-                         "canon_source": None if lmode else csrc, "data": dspec, "what": k}
+                         "canon_source": None if lmode else csrc, "data": dspec, "what": what}
                 if not lmode and sc["specs"][i]["recipe"]["template_comments"] and not _has_tcomment(tr) \
                         and not any(_has_tcomment(t) for t in sc["specs"][i]["partials"].values()):
                     probe["canon_plain"] = True
